@@ -241,8 +241,8 @@ def rule_N8(prog, fixture=False):
             where = "%s:%d" % (rel, x.line)
             what = "%s in %s" % (x.text()[:60], f.short)
             extra = {"props": ["C05"] + (["C02", "C10"] if ("/fft/" in rel or rel.endswith("stft.cpp")) else [])}
-            if nexp.k == "IntegerLiteral":
-                v = int(nexp.get("v"))
+            if nexp.k == "IntegerLiteral" or (nexp.k == "DeclRefExpr" and nexp.get("cv") is not None):
+                v = int(nexp.get("v") if nexp.k == "IntegerLiteral" else nexp.get("cv"))
                 if v > 0 and (v & (v - 1)) == 0:
                     res.add(key, DISCHARGED, where, what, "the modulus is the constant %d, a power of two" % v, func=f.name, extra=extra)
                 else:
